@@ -35,14 +35,17 @@ def quiet(capture_log=False):
     out, err = io.StringIO(), io.StringIO()
     handler = None
     logger = logging.getLogger('moPepGen')
+    prev = logger.level
     if capture_log:
         handler = LogCapture()
+        logger.setLevel(logging.INFO)
     with contextlib.redirect_stdout(out), contextlib.redirect_stderr(err):
         try:
             yield handler
         finally:
             if handler is not None:
-                logging.getLogger('moPepGen').removeHandler(handler)
+                logger.removeHandler(handler)
+                logger.setLevel(prev)
 
 
 def ref_args(d:Path, index_dir=None):
